@@ -327,9 +327,10 @@ func sortSlice(n int, less func(i, j int) bool, swap func(i, j int)) {
 
 // WaitGroup replaces sync.WaitGroup in instrumented code.
 type WaitGroup struct {
-	wg sync.WaitGroup
-	n  int
-	vc vclock
+	wg      sync.WaitGroup
+	n       int
+	waiters int
+	vc      vclock
 }
 
 func (w *WaitGroup) Add(delta int) {
@@ -345,6 +346,15 @@ func (w *WaitGroup) Add(delta int) {
 	w.n += delta
 	if w.n < 0 {
 		panic("sync: negative WaitGroup counter")
+	}
+	if delta > 0 && w.n == delta {
+		// The first increment must be synchronized with Wait. As the Go race detector
+		// does, it is modelled as a read of a location that a blocking Wait writes
+		// (several concurrent first increments do not race with each other).
+		access(unsafe.Pointer(w), 1, "sync.WaitGroup(Add from zero / Wait)", "WaitGroup.Add(first)", false, false)
+	}
+	if w.n == 0 {
+		w.waiters = 0
 	}
 	if delta < 0 {
 		e.releaseMerge(&w.vc)
@@ -363,6 +373,12 @@ func (w *WaitGroup) Wait() {
 		return
 	}
 	e.point("WaitGroup.Wait")
+	if w.n > 0 {
+		if w.waiters == 0 {
+			access(unsafe.Pointer(w), 1, "sync.WaitGroup(Add from zero / Wait)", "WaitGroup.Wait", true, false)
+		}
+		w.waiters++
+	}
 	for w.n > 0 {
 		e.block(func() bool { return w.n <= 0 }, "WaitGroup.Wait")
 	}
